@@ -1,16 +1,30 @@
 import DeapModel.Core.Logbook
+import DeapModel.Core.LogbookText
 import Driver.Proto
 /-!
 Protocol handler for C18 (Logbook and Statistics).
 
-`hist <op> …` runs a history on a fresh logbook and answers, for every operation,
-`<observation>;<state>` (joined by ` | `).  Names are numbers, name `0` is the record id.
+`hist <def> … <op> …` runs a history on a fresh logbook and answers, for every operation,
+`<observation>;<state>;w=<columns_len tree>[;x=<text>]` (joined by ` | `).  Names are numbers, name `0` is the
+record id.
+
+Definitions (all before the first operation): `N:<name>=<code points joined by .>` (`N:<name>=` is the empty
+string) gives the Python string of a name, `V:<code>=<value>` says that the integer code stands for a value that
+is not a plain integer: `n` None, `s<code points joined by .>` a string, `f+<num>/<den>` / `f-<num>/<den>` a
+finite double by its exact ratio (`f-0/1` is `-0.0`), `finf`, `f-inf`, `fnan`.
+`x=` is the VERBATIM text that `stream` / `str()` returned (the lines joined by newline), escaped injectively
+(`\\`, `\s` space, `\t` tab, `\n` newline); `x!` when `__txt__` raises.  `w=` is `[columns_len:chapters…]`
+recursively (`N` = None), chapters sorted by name.
+
+`fmtval <value>` renders one value (`Val.format`), `center <cps> <w>`, `ljust <cps> <w>`, `etlen <cps>`
+(= `len(s.expandtabs())`) are the Python string functions the text model uses.
 
 Operations
 * `R:<entry>`  record; entry = items joined by `,`: `k=v`, `k<` (open a dict under key k), `>` (close);
   `-` is the empty entry
 * `L:<path>:<names>`  select on the chapter reached by `path` (`.`-separated, `-` = the logbook itself)
-* `S` stream, `C:<path>` stream of the chapter at the (non-empty) path, `P` str(), `O:<i>` pop(i), `D:<i>` del [i], `X:<i,j,…>` del [slice] (index list of the slice),
+* `S` stream, `C:<path>` stream of the chapter at the (non-empty) path, `P` str(), `Q` str() on a logbook that need not be
+  aligned (observation `-`, then the text or `x!`), `O:<i>` pop(i), `D:<i>` del [i], `X:<i,j,…>` del [slice] (index list of the slice),
   `K` pickle round trip, `H:<names|none>` set header, `G:<0|1>` set log_header
 
 Observation: `-`; `L:<col>` / `T:<col>;<col>…` / `nopath` (None printed as `N`); `t<h>:<record ids>` for the
@@ -109,11 +123,102 @@ def showObs : Obs → String
   | .raised true => "raise"
   | .raised false => "ok"
 
-def runHist (ops : List Op) : String :=
-  let r := ops.foldl (fun (acc : LB × List String) o =>
-    let s := step acc.1 o
-    (s.1, (showObs s.2 ++ ";" ++ showState s.1) :: acc.2)) (LB.empty, [])
+/-! ### text -/
+
+/-- a string from its code points joined by `.` (the empty token is the empty string) -/
+def parseCps (s : String) : Option String :=
+  if s = "" then some "" else
+    ((s.splitOn ".").mapM parseNat).map fun l => String.ofList (l.map Char.ofNat)
+
+def parseVal (s : String) : Option Val :=
+  if s = "n" then some .none
+  else if s = "finf" then some (.inf false)
+  else if s = "f-inf" then some (.inf true)
+  else if s = "fnan" then some .nan
+  else if s.startsWith "s" then (parseCps (s.drop 1).toString).map Val.str
+  else if s.startsWith "f+" ∨ s.startsWith "f-" then
+    match ((s.drop 2).toString).splitOn "/" with
+    | [n, d] => do
+        let n ← parseNat n
+        let d ← parseNat d
+        if d = 0 then none else some (.float (s.startsWith "f-") n d)
+    | _ => none
+  else if s.startsWith "i" then (parseInt (s.drop 1).toString).map Val.int
+  else none
+
+/-- the leading definitions of a `hist` line and the remaining tokens -/
+def parseDefs : List String → List (Name × String) → List (Int × Val) →
+    Option (List (Name × String) × List (Int × Val) × List String)
+  | [], ns, vs => some (ns, vs, [])
+  | t :: ts, ns, vs =>
+    if t.startsWith "N:" then
+      match ((t.drop 2).toString).splitOn "=" with
+      | [k, cps] => do
+          let k ← parseNat k
+          let str ← parseCps cps
+          parseDefs ts (ns ++ [(k, str)]) vs
+      | _ => none
+    else if t.startsWith "V:" then
+      match ((t.drop 2).toString).splitOn "=" with
+      | [c, v] => do
+          let c ← parseInt c
+          let v ← parseVal v
+          parseDefs ts ns (vs ++ [(c, v)])
+      | _ => none
+    else some (ns, vs, t :: ts)
+
+/-- injective escaping of a text for the one-line answer -/
+def escape (s : String) : String :=
+  String.join (s.toList.map fun c =>
+    if c = '\\' then "\\\\" else if c = ' ' then "\\s" else if c = '\t' then "\\t"
+    else if c = '\n' then "\\n" else String.singleton c)
+
+def showText : TextObs → String
+  | .silent => ""
+  | .lines none => ";x!"
+  | .lines (some ls) => ";x=" ++ escape ("\n".intercalate ls)
+
+partial def showCL (lb : LB) (cl : CL) : String :=
+  let chs := lb.chapters.mergeSort (fun a b => a.1 ≤ b.1)
+  "[" ++ (match cl.len with | none => "N" | some l => showList toString l) ++ ":" ++
+    (if chs.isEmpty then "-" else String.join (chs.map fun p => toString p.1 ++ showCL p.2 (clChild p.1 cl.chapters))) ++ "]"
+
+/-- every name that can reach the text has a definition (a missing one would be rendered by a placeholder) -/
+def namesDefined (ns : List (Name × String)) (ops : List Op) : Bool :=
+  let rec entryNames : Nat → Entry → List Name
+    | 0, _ => []
+    | f + 1, .mk sc ds => sc.map (·.1) ++ ds.flatMap fun q => q.1 :: entryNames f q.2
+  ops.all fun o => match o with
+    | .record e => (entryNames 64 e).all fun k => (ns.lookup k).isSome
+    | .setHeader (some h) => h.all fun k => (ns.lookup k).isSome
+    | _ => true
+
+/-- `Q` is `str()` too, shown without the abstract observation -/
+def parseOpR (s : String) : Option (Op × Bool) :=
+  if s = "Q" then some (.str, true) else (parseOp s).map fun o => (o, false)
+
+def runHist (fmt : Fmt) (ops : List (Op × Bool)) : String :=
+  let r := ops.foldl (fun (acc : (LB × CL) × List String) o =>
+    let s := stepT fmt acc.1 o.1
+    (s.1, ((if o.2 then "-" else showObs s.2.1) ++ ";" ++ showState s.1.1 ++ ";w=" ++ showCL s.1.1 s.1.2 ++
+      showText s.2.2) :: acc.2))
+    ((LB.empty, CL.empty), [])
   " | ".intercalate r.2.reverse
+
+def handleHist (toks : List String) : Option String := do
+  let (ns, vs, rest) ← parseDefs toks [] []
+  if rest.isEmpty then return "empty"
+  let ops ← rest.mapM parseOpR
+  if !namesDefined ns (ops.map (·.1)) then failure
+  return runHist (Fmt.ofBooks ns vs) ops
+
+def handleFmt : List String → Option String
+  | ["fmtval", v] => (parseVal v).map fun x => escape x.format
+  | ["center", cps, w] => do pure (escape (center (← parseCps cps) (← parseNat w)))
+  | ["ljust", cps, w] => do pure (escape (ljust (← parseCps cps) (← parseNat w)))
+  | ["etlen", cps] => do pure (toString (expandtabsLen (← parseCps cps)))
+  | ["etlen"] => some "0"
+  | _ => none
 
 /-! ### statistics -/
 
@@ -243,11 +348,11 @@ def handleMulti (toks : List String) : Option String := do
   out
 
 def handle : List String → String
-  | ["hist"] => "empty"
-  | "hist" :: ops =>
-    match ops.mapM parseOp with
-    | some os => runHist os
-    | none => "bad-op"
+  | "hist" :: toks => (handleHist toks).getD "bad-op"
+  | "fmtval" :: toks => (handleFmt ("fmtval" :: toks)).getD "bad-op"
+  | "center" :: toks => (handleFmt ("center" :: toks)).getD "bad-op"
+  | "ljust" :: toks => (handleFmt ("ljust" :: toks)).getD "bad-op"
+  | "etlen" :: toks => (handleFmt ("etlen" :: toks)).getD "bad-op"
   | "stats" :: toks => (handleStats toks).getD "bad-op"
   | "statst" :: toks => (handleStatsT toks).getD "bad-op"
   | "multi" :: toks => (handleMulti toks).getD "bad-op"
